@@ -7,7 +7,8 @@
 export GOFLAGS=-mod=mod GOPROXY=off GOSUMDB=off GOTOOLCHAIN=local
 P=$1; K=$2; shift 2
 CHECKS=${@:-$P}
-SRC=/tmp/wt-$P/seeded/$K
+SRC=${SRCROOT:-/tmp/wt}-$P/seeded/$K   # SRCROOT=/tmp/w2 for the second wave
+DK=${DSTK:-$K}                          # letter under /verif/seeded (second wave: c, d)
 [ -f $SRC/patch.diff ] || { echo "no $SRC/patch.diff"; exit 2; }
 [ -z "$(git -C /repo status --porcelain)" ] || { echo "/repo dirty"; exit 2; }
 W=/tmp/wt-eval-$$
@@ -22,6 +23,7 @@ for f in $DEMOFILES; do cp $SRC/$f $W/$DEMODIR/; done
 CMD=$(python3 -c "
 import json,re
 c=json.load(open('$SRC/meta.json')).get('demo_cmd','')
+c=re.sub(r'\\s+\\(.*$','',c,flags=re.S)
 m=re.findall(r'go (?:test|run)[^&;|]*', c)
 print(m[-1].strip() if m else c)")
 ( cd $W && eval "$CMD" ) > /tmp/seed-clean.log 2>&1; RC_CLEAN=$?
@@ -44,7 +46,7 @@ for c in $CHECKS; do
   RESULT="$RESULT $c:rc=$rc"
 done
 git -C /repo checkout -- .
-D=/verif/seeded/$P-$K; mkdir -p $D; cp $SRC/* $D/
+D=/verif/seeded/$P-$DK; mkdir -p $D; cp $SRC/* $D/
 python3 - <<PY
 import json
 m=json.load(open('$D/meta.json'))
